@@ -312,7 +312,13 @@ def _strip(d):
 
 def msg_ids(res, seed, nthreads):
     import pynetdicom2
+    from . import c20ids
     res.evaluations += 1
+    # the ids as a peer sees them when several threads use the one-call c_find wrapper
+    c20ids.run(res, seed)
+    if not hasattr(pynetdicom2, '_new_msg_id'):
+        res.count('oracle.msg-id-per-thread')
+        return res
     per = 2000
     out = [None] * nthreads
     start = threading.Barrier(nthreads)
